@@ -328,7 +328,7 @@ def c17_histories(tier, rng, n_events):
 
 def check_C17(tier, seed):
     res = Result("C17", tier, seed)
-    proof = prepare("C17", res)
+    proof = prepare("C17", res, model_tags=("", "C17"))
     rng = gen.rng_for(seed, "C17")
     groups = gen.parse_space(tier, rng)
     if tier == "quick":
@@ -356,6 +356,9 @@ def check_C17(tier, seed):
                 if outs[i] != plain[b][i]:
                     res.add_violation("push interface (%s) delivers different events/spans/error than the iterator" % k,
                                       dict(input=s, codepoints=enc(s), api=k), push=outs[i][-600:], pull=plain[b][i][-600:])
+        # repeated load(recv, false): per-call segmentation, implementation vs extracted Model/Lazy.v, one document per call
+        from .p_c17x import single_calls
+        single_calls(res, cases, lines, plain["str"])
         # histories: exhaustive short histories on small streams + random histories everywhere
         hist_cases = []    # (case index, pattern)
         small = [i for i, s in enumerate(cases) if len(split_line(plain["str"][i])[0]) <= 12]
@@ -405,7 +408,7 @@ def check_C17(tier, seed):
             i, h = hist_cases[j]
             res.samples.append(dict(input=cases[i], history=h))
     res.nontrivial = set("%d/%s" % x if isinstance(x, tuple) else x for x in res.nontrivial)
-    rule = ("C01 input space; for each input: push (multi, repeated single) vs iterator on two back-ends; peek/next histories: "
+    rule = ("C01 input space + block x flow mixtures around the nesting limits; for each input: push (multi, repeated single) vs iterator on two back-ends; repeated load(false) call by call vs the extracted lazy model (one document per call); peek/next histories: "
             "all P/N strings up to a bound for small streams, random histories for every input; expected results computed by the "
             "extracted Coq specification spec_run from the plain iteration; non-trivial = distinct (input, history) pairs on "
             "streams of >= 4 events that matched")
